@@ -52,9 +52,17 @@ fn opts(rec: &Rec<'_>) -> AuthOpts {
 }
 
 fn gen(t: &mut Tape, rec: &mut Rec<'_>) -> Option<AuthCase> {
+    gen_with(t, rec, true)
+}
+
+fn gen_with(t: &mut Tape, rec: &mut Rec<'_>, tags: bool) -> Option<AuthCase> {
     crate::gen::s::LEVEL_FRIENDLY.with(|c| c.set(true));
-    let r = scase::gen_auth_case(t, &opts(rec));
+    crate::gen::s::DENSE_WORLD.with(|c| c.set(true));
+    let mut o = opts(rec);
+    o.schema.allow_tags = tags;
+    let r = scase::gen_auth_case(t, &o);
     crate::gen::s::LEVEL_FRIENDLY.with(|c| c.set(false));
+    crate::gen::s::DENSE_WORLD.with(|c| c.set(false));
     match r {
         Ok(c) => Some(c),
         Err(e) => {
@@ -131,7 +139,11 @@ fn level_case(t: &mut Tape, rec: &mut Rec<'_>) {
 }
 
 fn manifest_case(t: &mut Tape, rec: &mut Rec<'_>) {
-    let Some(c) = gen(t, rec) else { return };
+    crate::gen::s::NESTED_IN_TARGETS.with(|c| c.set(false));
+    // manifests are refused for policies over entity tags (documented): keep that path alive but spend few cases on it
+    let tags = t.bool_p(1, 8);
+    let Some(c) = gen_with(t, rec, tags) else { return };
+    rec.label_if(crate::gen::s::NESTED_IN_TARGETS.with(|c| c.get()), "in-path-and-in-its-extension");
     let validator = Validator::new(c.schema.clone());
     let auth = Authorizer::new();
     let ident = |s: &str| s.to_string();
@@ -214,7 +226,7 @@ pub fn property_c16() -> Property {
                World-S store and request. For n in 0..4: if validate_with_level(n) passes, authorization over the level-n slice computed by the harness (entities with a record reachable from principal/action/resource/context uids in fewer than n attribute/tag hops, each kept with attributes, tags and full ancestor set) \
                must give the same decision, reasons and error ids as the full store; acceptance is monotone in n. Non-trivial = the minimal accepted level is >=1 and its slice is a proper subset of the store.",
         assumptions: &["harness level slicer (from RFC 76: the smallest store the guarantee speaks about)", "World-S conformance"],
-        subs: vec![SubCheck { name: "level", cases: (100_000, 2_000_000), tape_len: 4000, run: level_case, min_labels: &[("min-level:1", 12_000), ("min-level:2", 6000), ("min-level:3", 1000), ("proper-slice-at-min-level", 20_000)] }],
+        subs: vec![SubCheck { name: "level", cases: (200_000, 4_000_000), tape_len: 4000, run: level_case, min_labels: &[("min-level:1", 40_000), ("min-level:2", 15_000), ("min-level:3", 5000), ("proper-slice-at-min-level", 80_000), ("deref-of-if-with-branches-of-different-depth", 3000)] }],
     }
 }
 
@@ -224,6 +236,6 @@ pub fn property_c17() -> Property {
         rule: "same generator as C16 (strict validation only). compute_entity_manifest, then core EntityManifest::slice_entities(store, request); authorization over the sliced store must give the same decision, reasons and error ids as over the full store. \
                Manifest computation refusing a policy (entity tags and other documented unsupported features) is a counted skip. Non-trivial = the slice is a proper subset of the store and some policy dereferences an entity.",
         assumptions: &["World-S conformance", "manifest computation errors for documented unsupported features are skips"],
-        subs: vec![SubCheck { name: "manifest", cases: (100_000, 2_000_000), tape_len: 4000, run: manifest_case, min_labels: &[("manifest-ok", 30_000), ("proper-slice", 20_000), ("has-guards", 10_000)] }],
+        subs: vec![SubCheck { name: "manifest", cases: (300_000, 6_000_000), tape_len: 4000, run: manifest_case, min_labels: &[("manifest-ok", 180_000), ("proper-slice", 120_000), ("has-guards", 60_000), ("in-path-and-in-its-extension", 6000), ("manifest-skip:tags", 1500)] }],
     }
 }
